@@ -785,8 +785,10 @@ func C01(c *vf.Ctx) {
 			{Small: false, Manual: true, Threads: thr3},
 			{Small: true, GateU: true, Threads: thr3},
 			{Small: true, Soft: true, GateU: true, Threads: thr3},
+			{Small: true, Soft: true, Points: []string{"conn.created"}, Threads: thr3},
 		},
-		kinds:   []string{"start", "hstep", "relw", "deliver", "relu", "cancel"},
+		scen:    []string{"invoke-overtaken-after-cancel"},
+		kinds:   []string{"start", "hstep", "relw", "deliver", "relu", "cancel", "point"},
 		weights: map[string]int{"newstream": 2, "invoke": 1, "op": 10, "hstep": 8, "relw": 10, "deliver": 10, "relu": 4, "cancel": 1},
 		tail: func(w *sys.World, rng *rand.Rand, ts *tailState) {
 			if w.Cfg.GateU && rng.Intn(2) == 0 {
@@ -931,6 +933,7 @@ func C02(c *vf.Ctx) {
 	c.Assume = append(c.Assume, sysAssumeObs, sysAssumeUnits,
 		"every payload, error text and rpc name carries the identity of the RPC/stream that produced it")
 	nT, nR := sizes(c, 4, 50, 16, 260)
+	var res02 string
 	fam := sysFamily{prop: "C02", maxRPC: 4, plen: 20,
 		cfgs: []sys.Config{
 			{Small: true, Soft: true, Threads: thr3},
@@ -946,8 +949,35 @@ func C02(c *vf.Ctx) {
 				w.Step(sys.Stim{K: "point", T: t})
 			}
 			w.Flow(60, hDefault)
+			// what earlier calls did (cancel, close, failure) does not decide a later call: once they are over, a fresh call runs
+			res02 = "skipped"
+			if w.Cfg.Soft && endAll(w, hDrain) {
+				ts.mark(w, "ended")
+				res02 = probe(w, ts)
+			}
 		},
 		mons: []func(*runView) []finding{monWire, monDelivery, monIsolation, monMetaAsC02},
+		post: func(v *runView, ts *tailState) []finding {
+			at, ok := ts.Marks["ended"]
+			if !ok {
+				return nil
+			}
+			o := v.r.Lines[at].Obs
+			for _, t := range v.r.Cfg.Threads {
+				if parkedInDrpc(o.App[t]) {
+					return nil
+				}
+			}
+			if !strings.HasPrefix(o.App["sv"], "h:") && o.App["sv"] != "blk" {
+				return nil
+			}
+			var out []finding
+			for _, f := range probeFinding("C02", v, ts, res02) {
+				f.Sig = "the outcome of a fresh call was decided by earlier calls: " + f.Sig
+				out = append(out, f)
+			}
+			return out
+		},
 		own:  map[string]bool{"C02": true},
 		design: &designCheck{cfg: sys.Config{Small: false, Soft: true, Threads: []string{"c1"}}, kinds: []string{"start", "hstep", "relw", "deliver", "cancel"},
 			maxRPC: 2, maxStims: 5, invs: "TypeOK StreamInvs OneWrite"},
